@@ -142,7 +142,7 @@ Non-trivial = every case (distinct by file bytes).".into();
     }
     // witness for F-C02-b: a cross-reference stream row of an UNDEFINED type (ISO 32000-1 Table 18: "any other value shall be
     // interpreted as a reference to the null object") has the same three fields as every other row and must be skipped as
-    // a whole; lopdf reads only its type field, so every later row is misread (Lean: Grammar.unknownType_desync).
+    // a whole; lopdf read only its type field, so every later row was misread (fixed by e3a88e7; Lean: Grammar.unknownType_skipped).
     if let Some(_r) = c.case("xrefstm_unknown_type", 0) {
         let mut f: Vec<u8> = b"%PDF-1.5\n".to_vec();
         let o2 = f.len(); f.extend_from_slice(b"2 0 obj\n<< /Type /Catalog >>\nendobj\n");
@@ -158,6 +158,7 @@ Non-trivial = every case (distinct by file bytes).".into();
         c.corr(format!("load {}", hex_tok(&f)), load_reply(&f));
         let ok = matches!(guard(|| Document::load_mem(&f)), Ok(Ok(d))
             if matches!(d.get_object((3, 0)), Ok(Object::String(s, _)) if s == b"hello") && d.get_object((2, 0)).is_ok());
+        c.corr(format!("load {}", hex_tok(&f)), load_reply(&f));
         c.witness("F-C02-b", !ok, "objects listed after a cross-reference stream row of an undefined type are lost (the row's fields 2 and 3 are not skipped)");
         // control: the same file with the undefined-type row replaced by a free row loads completely
         let mut g = f.clone();
